@@ -51,36 +51,6 @@ theorem number_map_snd (s : Nat) (body : List Line) : (number s body).map (·.2)
   | nil => rfl
   | cons l r ih => simp [number, ih]
 
-theorem joinNumbered_number (s : Nat) (body : List Line) : joinNumbered (number s body) = joinNl body := by
-  simp [joinNumbered, number_map_snd]
-
-theorem joinNl_unlines (body : List Line) (h : body ≠ []) : joinNl body ++ ['\n'] = unlines body := by
-  induction body with
-  | nil => exact absurd rfl h
-  | cons l r ih =>
-    cases r with
-    | nil => simp [joinNl, unlines]
-    | cons l' r' =>
-      have := ih (by simp)
-      simp only [joinNl, unlines_cons, List.append_assoc, List.cons_append] at this ⊢
-      rw [this]
-
-theorem number_getLast? (s : Nat) (body : List Line) (h : body ≠ []) :
-    ∃ l, (number s body).getLast? = some (s + body.length - 1, l) := by
-  induction body generalizing s with
-  | nil => exact absurd rfl h
-  | cons l r ih =>
-    cases r with
-    | nil => exact ⟨l, by simp [number]⟩
-    | cons l' r' =>
-      obtain ⟨x, hx⟩ := ih (s + 1) (by simp)
-      refine ⟨x, ?_⟩
-      simp only [number] at hx ⊢
-      rw [List.getLast?_cons_cons, hx]
-      simp only [List.length_cons]
-      congr 2
-      omega
-
 theorem configSuffix_cfgLines (i : Nat) (config : Line) :
     configSuffix (cfgLines i config) = configSuffix (cfgLines 0 config) := by
   unfold cfgLines
@@ -182,10 +152,25 @@ theorem emitTok_test {gens : List (Option (List Char))} {k k' : Nat} {language c
         simp only [testBlock, blockText, commentText_eq comments hcm, configSuffix_cfgLines i config,
           assureNewline_clean (backticks_no_nl _), List.append_assoc]
 
+theorem number_length (s : Nat) (body : List Line) : (number s body).length = body.length := by
+  induction body generalizing s with
+  | nil => rfl
+  | cons l r ih => simp [number, ih]
+
+theorem docConfig_text (j : Nat) (body : List Line) (hnl : ∀ l ∈ body, '\n' ∉ l) :
+    ['-', '-', '-', '\n'] ++ commentText (number j body) ++ ['-', '-', '-', '\n']
+      = unlines (frontMatterFence :: (body ++ [frontMatterFence])) := by
+  rw [commentText_eq _ (by
+    intro c hc
+    apply hnl
+    have := List.mem_map_of_mem (f := (·.2)) hc
+    rwa [number_map_snd] at this), number_map_snd, unlines_cons, unlines_append]
+  simp [unlines, frontMatterFence]
+
 theorem covers_rewritten (L : List Line) (gens : List (Option (List Char))) (strict : Bool)
     {i : Nat} {src : List Line} {toks : List Tok} (hc : Covers L i src toks) :
     ∀ (N k : Nat) (out : List Char), i + src.length = N → (∀ l ∈ src, '\n' ∉ l) →
-      (strict = true → ∀ t ∈ toks, frontOk N t = true) →
+      (strict = true → frontClosed N i toks = true) →
       emit gens k toks = .ok out → Rewritten L gens strict k src out := by
   induction hc with
   | nil i =>
@@ -204,7 +189,8 @@ theorem covers_rewritten (L : List Line) (gens : List (Option (List Char))) (str
     rw [← h1, assureNewline_clean (hnl l (by simp))]
     simp only [List.append_assoc, List.singleton_append]
     exact .line k l rest r hx
-      (ih N k r (by simp at hN; omega) (fun x hx => hnl x (by simp [hx])) (fun hs t ht => hg hs t (by simp [ht])) h2)
+      (ih N k r (by simp at hN; omega) (fun x hx => hnl x (by simp [hx]))
+        (fun hs => by have := hg hs; simpa [frontClosed, tokSpan] using this) h2)
   | frontClosed i body rest toks hb _ ih =>
     intro N k out hN hnl hg h
     obtain ⟨s, k', r, h1, h2, h3⟩ := emit_cons_ok h
@@ -213,26 +199,12 @@ theorem covers_rewritten (L : List Line) (gens : List (Option (List Char))) (str
     injection h1 with h1 h1'
     subst h1' h3
     have hrest := ih N k r (by simp at hN; omega) (fun x hx => hnl x (by simp [hx]))
-      (fun hs t ht => hg hs t (by simp [ht])) h2
-    by_cases hbe : body = []
-    · subst hbe
-      have hs : strict = false := by
-        cases hstr : strict with
-        | false => rfl
-        | true =>
-          have := hg hstr (.docConfig (number (i + 1) [])) (by simp)
-          simp [frontOk, number] at this
-      rw [← h1]
-      have := Rewritten.frontEmpty (L := L) (gens := gens) k rest r hs hrest
-      simpa [number, joinNumbered, joinNl, unlines, frontMatterFence] using this
-    · rw [← h1, joinNumbered_number]
-      have := Rewritten.front (L := L) (gens := gens) (strict := strict) k body rest r hb hbe hrest
-      have e : ['-', '-', '-', '\n'] ++ joinNl body ++ ['\n', '-', '-', '-', '\n']
-          = unlines (frontMatterFence :: (body ++ [frontMatterFence])) := by
-        rw [unlines_cons, unlines_append, ← joinNl_unlines body hbe]
-        simp [unlines, frontMatterFence]
-      rw [e]
-      exact this
+      (fun hs => by
+        have := hg hs
+        simp only [frontClosed, number_length, Bool.and_eq_true] at this
+        exact this.2) h2
+    rw [← h1, docConfig_text _ body (fun x hx => hnl x (by simp [hx]))]
+    exact Rewritten.front k body rest r hb hrest
   | frontOpen i body hb =>
     intro N k out hN hnl hg h
     obtain ⟨s, k', r, h1, h2, h3⟩ := emit_cons_ok h
@@ -247,26 +219,12 @@ theorem covers_rewritten (L : List Line) (gens : List (Option (List Char))) (str
       cases hstr : strict with
       | false => rfl
       | true =>
-        have := hg hstr (.docConfig (number (i + 1) body)) (by simp)
-        by_cases hbe : body = []
-        · subst hbe; simp [frontOk, number] at this
-        · obtain ⟨x, hx⟩ := number_getLast? (i + 1) body hbe
-          simp only [frontOk, hx, decide_eq_true_eq] at this
-          have hlen : 0 < body.length := List.length_pos_iff.mpr hbe
-          simp at hN
-          omega
-    rw [← h1, joinNumbered_number, List.append_nil]
-    have := Rewritten.frontOpen (L := L) (gens := gens) k body hs hb
-    by_cases hbe : body = []
-    · subst hbe
-      simpa [joinNl, unlines, frontMatterFence] using this
-    · have e : ['-', '-', '-', '\n'] ++ joinNl body ++ ['\n', '-', '-', '-', '\n']
-          = unlines (frontMatterFence :: (body ++ [frontMatterFence])) := by
-        rw [unlines_cons, unlines_append, ← joinNl_unlines body hbe]
-        simp [unlines, frontMatterFence]
-      rw [e]
-      have hie : body.isEmpty = false := by simpa using hbe
-      simpa [hie] using this
+        have := hg hstr
+        simp only [frontClosed, number_length, Bool.and_eq_true, decide_eq_true_eq] at this
+        simp at hN
+        omega
+    rw [← h1, docConfig_text _ body (fun x hx => hnl x (by simp [hx])), List.append_nil]
+    exact Rewritten.frontOpen k body hs hb
   | verbClosed i opener bt language config body closer rest toks hx hl hb hcl _ ih =>
     intro N k out hN hnl hg h
     obtain ⟨s, k', r, h1, h2, h3⟩ := emit_cons_ok h
@@ -275,7 +233,11 @@ theorem covers_rewritten (L : List Line) (gens : List (Option (List Char))) (str
     injection h1 with h1 h1'
     subst h1' h3
     have hrest := ih N k r (by simp at hN; omega) (fun x hx => hnl x (by simp [hx]))
-      (fun hs t ht => hg hs t (by simp [ht])) h2
+      (fun hs => by
+        have := hg hs
+        simp only [frontClosed, tokSpan, List.length_cons, List.length_append, List.length_nil] at this
+        have e : i + (body.length + (0 + 1) + 1) = i + body.length + 2 := by omega
+        rwa [e] at this) h2
     rw [← h1, flatMap_assure _ (fun x hx => hnl x (by
       rcases List.mem_cons.mp hx with h | h
       · simp [h]
@@ -306,7 +268,14 @@ theorem covers_rewritten (L : List Line) (gens : List (Option (List Char))) (str
     have hN' : i + body.length + 2 + rest.length = N := by simp at hN; omega
     have hnl' : ∀ l ∈ rest, '\n' ∉ l := fun x hx => hnl x (by simp [hx])
     have hnlb : ∀ l ∈ body, '\n' ∉ l := fun x hx => hnl x (by simp [hx])
-    have hg' : strict = true → ∀ t ∈ toks, frontOk N t = true := fun hs t ht => hg hs t (by simp [ht])
+    have hlen : comments.length + code.length = body.length := by
+      have := congrArg List.length hcc
+      simpa [number_length] using this
+    have hg' : strict = true → frontClosed N (i + body.length + 2) toks = true := fun hs => by
+      have := hg hs
+      simp only [frontClosed, tokSpan] at this
+      have e : i + (comments.length + code.length + 2) = i + body.length + 2 := by omega
+      rwa [e] at this
     have hrest := ih N k' r hN' hnl' hg' h2
     have hbo := emitTok_test hcc hnlb h1
     exact Rewritten.block k k' opener bt language config body (some closer) rest s r hx hl hb hcl hbo hrest
@@ -394,7 +363,7 @@ theorem generateUpdate_rewritten (L : List Line) (doc : List Char) (gens : List 
 theorem generateUpdate_rewritten_strict (L : List Line) (doc : List Char) (gens : List (Option (List Char)))
     (hne : gens ≠ []) (out : List Char) (h : generateUpdate L doc gens = .ok out)
     (toks : List Tok) (ht : tokenize L (splitLines doc) = .ok toks)
-    (hf : ∀ t ∈ toks, frontOk (splitLines doc).length t = true) :
+    (hf : frontClosed (splitLines doc).length 0 toks = true) :
     Rewritten L gens true 0 (splitLines doc) out := by
   unfold generateUpdate at h
   have : gens.isEmpty = false := by simpa using hne
@@ -437,19 +406,20 @@ theorem blockText_unlines (bt language config : Line) (head code : List Line) :
 
 /-! ## a second update sees only the texts of the tokens -/
 
+theorem commentText_congr (a b : Numbered) (hab : a.map (·.2) = b.map (·.2)) :
+    commentText a = commentText b := by
+  have e : ∀ (x : Numbered), commentText x = (x.map (·.2)).flatMap assureNewline := by
+    intro x; simp [commentText, List.flatMap_map]
+  rw [e, e, hab]
+
 theorem emitTok_sameTexts (gens : List (Option (List Char))) (k : Nat) (t t' : Tok) (h : sameTexts t t') :
     emitTok gens k t' = emitTok gens k t := by
   cases t <;> cases t' <;> simp only [sameTexts] at h
   · subst h; rfl
-  · simp only [emitTok, h]
+  · simp only [emitTok, commentText_congr _ _ h]
   · obtain ⟨h1, h2, h3, h4⟩ := h
     subst h1
-    have hc : ∀ (a b : Numbered), a.map (·.2) = b.map (·.2) → commentText a = commentText b := by
-      intro a b hab
-      have e : ∀ (x : Numbered), commentText x = (x.map (·.2)).flatMap assureNewline := by
-        intro x; simp [commentText, List.flatMap_map]
-      rw [e, e, hab]
-    simp only [emitTok, testBlock, h2, hc _ _ h3, h4]
+    simp only [emitTok, testBlock, h2, commentText_congr _ _ h3, h4]
   · subst h; rfl
 
 theorem emit_sameTexts (gens : List (Option (List Char))) (toks toks' : List Tok)
